@@ -3,7 +3,8 @@
 Explicit-state search over process histories; every history is replayed in a FORKED child (the command registry and sys.modules
 are process-global), so states never leak between histories.  Libraries: the built-in ones (basic, fuzzy, csv, netcdf and the
 whole eems package) and generated user libraries with prefix-related names: module ulib (Alpha, Beta), module ulib_extra (Gamma),
-module ulib2 (re-defines Alpha), package upkg (Eps) with sub-module upkg.sub (Delta), module upkgx (Zeta).
+module ulib2 (re-defines Alpha), package upkg (Eps) with sub-module upkg.sub (Delta), module upkgx (Zeta), package upkg2 whose only
+command (Theta) lives in a sub-module that its __init__ does not import.
 Events: Program(libraries=t) for every tuple t of <=2 libraries in every order (thorough: <=3 over a reduced menu), plain import
 of a library, definition of an unrelated Command subclass (fresh name / a name that a library also uses), from_source+run of a
 small model.  Every history ends with a Program(t) event whose outcome (name -> defining module map, or the construction error) is
@@ -30,7 +31,7 @@ ASSUMPTIONS = ["each history runs in its own forked process; numpy/netCDF4/ply a
                "the reference knows the commands of each library from mc/ref/sig.py and from the generated sources"]
 E = "mpilot.libraries.eems"
 BUILTIN = [E + ".basic", E + ".fuzzy", E + ".csv", E + ".netcdf", E]
-USER = ["ulib", "ulib_extra", "ulib2", "upkg", "upkgx", "upkg.sub"]
+USER = ["ulib", "ulib_extra", "ulib2", "upkg", "upkgx", "upkg.sub", "upkg2"]
 MENU = BUILTIN + USER
 USER_SRC = {
     "ulib.py": "from mpilot.commands import Command\n\nclass Alpha(Command):\n    def execute(self, **kw):\n        return 'ulib.Alpha'\n\nclass Beta(Command):\n    def execute(self, **kw):\n        return 'ulib.Beta'\n",
@@ -38,6 +39,8 @@ USER_SRC = {
     "ulib2.py": "from mpilot.commands import Command\n\nclass Alpha(Command):\n    def execute(self, **kw):\n        return 'ulib2.Alpha'\n",
     "upkg/__init__.py": "from mpilot.commands import Command\n\nclass Eps(Command):\n    def execute(self, **kw):\n        return 'upkg.Eps'\n",
     "upkg/sub.py": "from mpilot.commands import Command\n\nclass Delta(Command):\n    def execute(self, **kw):\n        return 'upkg.sub.Delta'\n",
+    "upkg2/__init__.py": "",
+    "upkg2/deep.py": "from mpilot.commands import Command\n\nclass Theta(Command):\n    def execute(self, **kw):\n        return 'upkg2.deep.Theta'\n",
     "upkgx.py": "from mpilot.commands import Command\n\nclass Zeta(Command):\n    def execute(self, **kw):\n        return 'upkgx.Zeta'\n",
 }
 KNOWN = None
@@ -58,7 +61,7 @@ def _known():
             k.append((E + ".csv.io", name))
         for name in SIG.NETCDF_IO:
             k.append((E + ".netcdf.io", name))
-        k += [("ulib", "Alpha"), ("ulib", "Beta"), ("ulib_extra", "Gamma"), ("ulib2", "Alpha"), ("upkg", "Eps"), ("upkg.sub", "Delta"), ("upkgx", "Zeta")]
+        k += [("ulib", "Alpha"), ("ulib", "Beta"), ("ulib_extra", "Gamma"), ("ulib2", "Alpha"), ("upkg", "Eps"), ("upkg.sub", "Delta"), ("upkgx", "Zeta"), ("upkg2.deep", "Theta")]
         KNOWN = k
     return KNOWN
 
@@ -96,7 +99,7 @@ def prepare(tier):
         with open(path, "w") as f:
             f.write(src)
     sys.path.insert(0, d)
-    loaded = [m for m in sys.modules if m.startswith("mpilot.libraries.") or m.split(".")[0] in ("ulib", "ulib_extra", "ulib2", "upkg", "upkgx")]
+    loaded = [m for m in sys.modules if m.startswith("mpilot.libraries.") or m.split(".")[0] in ("ulib", "ulib_extra", "ulib2", "upkg", "upkgx", "upkg2")]
     if loaded:
         raise RuntimeError("libraries already imported in the parent process: %r" % loaded)
 
